@@ -430,8 +430,13 @@ class Ctx:
         if not path:
             return
         try:
-            with open(path, "w") as f:
-                json.dump({"case": case, "n": self.evaluations}, f, default=str, ensure_ascii=False)
+            # one descriptor kept open, rewritten in place: a few microseconds per case
+            fd = getattr(self, "_journal_fd", None)
+            if fd is None:
+                fd = self._journal_fd = os.open(path, os.O_WRONLY | os.O_CREAT | os.O_TRUNC, 0o644)
+            data = json.dumps({"case": case, "n": self.evaluations}, default=str, ensure_ascii=False).encode()
+            os.pwrite(fd, data, 0)
+            os.ftruncate(fd, len(data))
         except Exception:
             pass
 
